@@ -142,6 +142,7 @@ def classical_interpolation(A, C, splitting, theta=None, norm='min', modified=Tr
         C = classical_strength_of_connection(A, theta=theta, norm=norm)
     else:
         C = C.copy()
+        C.eliminate_zeros()  # a stored zero is not a strong connection
 
     # Use modified classical interpolation by ignoring strong F-connections that do
     # not have a common C-point.
